@@ -483,13 +483,19 @@ def run_op(env, ctx, op, path=()):
         mod = env.last_mod.get(task.i if task is not None else None)
         n = 0
         if raw is not None and mod is not None:
+            saved = task.deadline if task is not None else None
+            if task is not None:
+                task.deadline = task.local + 400_000
             try:
                 with locks.sut():
                     n = postprocess(mod, raw)
             except mon.StepBudget:
-                raise
+                n = -2
             except Exception:
                 n = -1
+            finally:
+                if task is not None:
+                    task.deadline = saved
             env.count('postprocess')
         return {'path': list(path), 'out': {'postprocessed': n}, 'fired': [], 'steps': 0, 'nested': []}
     if kind == 'burst':
